@@ -294,6 +294,10 @@ def judge_program(p, text, T, ms, fold_by_stmt, job):
             avs = []
             found = False
             for s in stmts_by_row.get(line - 1, []):
+                if T.stmt[s].get("operation") == "variable_decl":
+                    # the hoisted declaration carries the source row of the variable's first assignment; its initial
+                    # UNSOLVED state is not a value of that assignment (it would make every first definition vacuous)
+                    continue
                 for ctx in sp.contexts_of_stmt(s):
                     d = sp.defined(ctx, s)
                     if d is None or d[0] != lname:
@@ -496,7 +500,7 @@ def make_jobs(chk, n_programs, side_dir, meta_every=1):
     for k in range(0, len(progs), BATCH):
         chunk = progs[k:k + BATCH]
         jobs.append({"tag": f"b{k // BATCH}", "programs": [p.to_case() for p in chunk], "side_dir": side_dir})
-        if any(p.slot is not None for p in chunk) and (k // BATCH) % meta_every == 0:
+        if any(p.slot is not None for p in chunk) and ((k // BATCH) % meta_every == 0 if meta_every > 0 else (k // BATCH) % 3 != 2):
             # same composition as the base batch (the order in which P2 visits methods depends on the whole project);
             # two benign variants: what differs between them depends on the literal as data
             jobs.append({"tag": f"v{k // BATCH}", "programs": [p.to_case() for p in chunk], "variant": 1, "side_dir": side_dir})
@@ -539,7 +543,7 @@ def main():
         jobs = replay_jobs(case, side_dir)
         progs = []
     else:
-        progs, jobs = make_jobs(chk, 5000 if thorough else 200, side_dir, meta_every=3 if thorough else 1)
+        progs, jobs = make_jobs(chk, 5000 if thorough else 200, side_dir, meta_every=3 if thorough else -1)    # quick: two batches of every three get the two benign variants
     results = {}
     variants = {}
     variants2 = {}
@@ -670,8 +674,12 @@ def main():
         chk.count("folds whose evaluated text and result were checked", pr["fold_checked"])
         const_defs += pr["const_defs"]
         const_val += pr["const_by_value"]
-        for k in pr["kinds"]:
+        for k, n in pr["kinds"].items():
             chk.nontrivial_case(k)
+            if "nested-field-read-after-late-write:" in k:
+                chk.count("value-covered definitions of the family 'nested object modified in the callee after it was stored'", n)
+            if "field-read-after-multi-exit-callee-write:" in k:
+                chk.count("value-covered definitions of the family 'helper with several exits writes a parameter object's field'", n)
         if pr["sample"]:
             chk.sample(pr["sample"])
         comp = compensated_results.get(uid)
@@ -685,6 +693,11 @@ def main():
                 chk.fail("cover:bounded-visits-in-loops",
                          desc + f" [own signature {sig}; covered when the program is analysed with the scheduling of "
                                 f"proposed/C08-worklist-order.diff]", dict(case, detail=det))
+                continue
+            if sig.startswith("cover:") and p is not None and callee_object_in_loop_modified_later(p, det.get("line")):
+                chk.count("failing definitions of the shape 'object returned by a callee in a loop body, member written later in that body'")
+                chk.fail("cover:callee-object-in-loop-body-modified-later",
+                         desc + f" [own signature {sig}]", dict(case, detail=det))
                 continue
             chk.fail(sig, desc, dict(case, detail=det))
         for sig, desc, det in pr["fold_fails"]:
@@ -727,7 +740,7 @@ def main():
         if share < NONVACUOUS_FLOOR and not rp:
             chk.note_inconclusive(f"only {share:.2%} of constant-valued definitions are covered by value (floor {NONVACUOUS_FLOOR:.0%}): cover holds mostly vacuously")
     if not rp:
-        # floors: about half of what seeds 0-4 measured on the healthy tree (quick: 5400-5654 / 1361-1525 / 2003-2327 / 179-188 /
+        # floors: about half of what seeds 0-4 measured on the healthy tree (quick (metamorphic variants for two batches of three): 8000+ / 2500+ / 2000+ / 120-130 /
         # 42471-44736; thorough seed 0: 134405 / 34656 / 52239 / 1528 / 579507)
         chk.require("definitions covered by value / allocation site", 2500 if not thorough else 60000)
         chk.require("object definitions covered by allocation site and members", 600 if not thorough else 15000)
@@ -737,6 +750,9 @@ def main():
         chk.require("metamorphic pairs compared", 80 if not thorough else 700)
         chk.require("compute_stmt_states calls recorded", 15000 if not thorough else 250000)
         chk.require("explosive-literal programs analysed", 4)
+        # the two scripted families (measured on quick seeds 0-4: 158-183 / 185-241 value-covered definitions)
+        chk.require("value-covered definitions of the family 'nested object modified in the callee after it was stored'", 80 if not thorough else 2000)
+        chk.require("value-covered definitions of the family 'helper with several exits writes a parameter object's field'", 80 if not thorough else 2000)
         if progs:
             chk.sample({"program": progs[0].text, "hostile_literals": progs[0].literals[:4]})
     else:
@@ -749,6 +765,39 @@ def main():
         "explosive literals (9**9**9, 'ab'*10**9, ...) are analysed in children with RLIMIT_AS 4 GiB; a child that enters an evaluation predicted above 10^8 bits is stopped by the monitor after recording the text",
     ]
     sys.exit(chk.finish())
+
+
+def callee_object_in_loop_modified_later(p, line):
+    """Shape of the mechanism 're-applied callee summary in a later analysis round': the failing definition lies in a loop
+    body in which, at or before it, an object comes back from a callee (returned, or stored by the callee into an argument) and
+    a member is written later in the same body.  Computed from the program text and the generator's line metadata only."""
+    if not line or line < 1 or line > len(p.lines):
+        return False
+    ind = lambda i: len(p.lines[i - 1]) - len(p.lines[i - 1].lstrip())
+    header = None
+    for i in range(line - 1, 0, -1):
+        if not p.lines[i - 1].strip():
+            continue
+        if ind(i) < ind(line) and p.meta.get(i, {}).get("kind") == "loop":
+            header = i
+            break
+        if ind(i) == 0:
+            break
+    if header is None:
+        return False
+    body = []
+    for i in range(header + 1, len(p.lines) + 1):
+        if p.lines[i - 1].strip() and ind(i) <= ind(header):
+            break
+        body.append(i)
+    from_callee = [i for i in body if i <= line and (
+        str(p.meta.get(i, {}).get("construct", "")).startswith(("container-returned", "callee-stores-then-modifies"))
+        or p.meta.get(i, {}).get("construct") in ("callee-allocation", "call-return-object"))]
+    if not from_callee:
+        return False
+    first = min(from_callee)
+    return any(i > first and (p.meta.get(i, {}).get("kind") == "fieldwrite" or p.meta.get(i, {}).get("construct") == "callee-field-write")
+               for i in body)
 
 
 def strip_outer(text):
